@@ -2592,3 +2592,46 @@ func vlogRemovalGroup(c *Ctx, rule string) {
 	}
 	c.Decide(drains, rule, "NoKV.valueLog.filesToBeDeleted#drained-by-last-iterator", token.NoPos, 2, "the last iterator to close removes the postponed segments", "no function that decrements numActiveIterators removes the segments queued in filesToBeDeleted: postponed removals never happen (or nothing ever postpones)")
 }
+
+// compactionOutcomeGroup (C11 / C09 / C15): two ways a compaction lost data although every step
+// "succeeded".  (a) manifest.logEditsLocked must not return an error once the edits are applied
+// (callers read an error as `nothing was logged` and delete the tables they registered): every
+// return reachable from Manager.apply is the nil constant.  (b) the goroutine that builds an
+// output table reports to the throttle with the outcome of lsm.openTable: a function that calls
+// openTable never reports Throttle.Done with the constant nil.
+func compactionOutcomeGroup(c *Ctx, rule string) {
+	c.Rule(rule, "manifest.Manager.logEditsLocked returns the nil constant on every path that has applied the edits (a failed automatic rewrite is not the edit's error); no function that calls lsm.openTable reports utils.Throttle.Done with a constant nil (a table that could not be built fails the compaction)")
+	if fn := c.Fn("manifest", "Manager.logEditsLocked"); fn != nil {
+		applies := Calls(fn, false, Named("manifest.(*Manager).apply"))
+		bad, n := 0, 0
+		for _, r := range Returns(fn) {
+			reached := false
+			for _, a := range applies {
+				if rr, _ := CutReach(fn, a.(ssa.Instruction), r, nil, nil); rr {
+					reached = true
+				}
+			}
+			if !reached {
+				continue
+			}
+			n++
+			if !IsNilConst(RetVal(r, 0)) {
+				bad++
+			}
+		}
+		c.Decide(len(applies) > 0 && n > 0 && bad == 0, rule, key(fn, "applied-edits→nil"), fn.Pos(), n+1, "edits that were logged and applied are reported as logged",
+			"logEditsLocked can return an error after the edits were made durable and applied (the error of the automatic rewrite): the caller treats the edit as not logged – a compaction deletes the output tables it has just registered, and after a restart the inputs are removed as unreferenced (flushed keys are gone)")
+	}
+	n := 0
+	for _, f := range c.P.ModFuncs {
+		if FuncPkgPath(f) != Module+"/lsm" || len(Calls(f, false, Named("lsm.openTable"))) == 0 {
+			continue
+		}
+		for _, d := range Calls(f, false, Named("utils.(*Throttle).Done")) {
+			n++
+			arg := d.Common().Args[len(d.Common().Args)-1]
+			c.Decide(!IsNilConst(arg), rule, FuncName(f)+"#Throttle.Done<-openTable-outcome", d.Pos(), 2, "the builder reports what openTable returned",
+				"the table-building goroutine reports success to the throttle unconditionally (Done(nil)) although openTable can fail: compactBuildTables sees no error and runCompactDef replaces the inputs with an incomplete set of outputs – the entries of the table that was not built are lost while the compaction reports DONE")
+		}
+	}
+}
